@@ -242,9 +242,15 @@ def main():
         else:
             broken.append(("correspondence-run", "kvarn-verif " + pid, f"harness produced no result (rc={p.returncode}): {p.stderr[-1500:]}"))
 
-    # 4b. thorough only: schedules of the real code under Miri (data-race / UB detector), where the property has such a crate
-    if tier == "thorough" and meta.get("miri") and result is not None and not replay_in:
-        result["groups"].append(miri_group(meta["miri"], broken, log))
+    # 4b. schedules of the real code under Miri (data-race / UB detector, weak-memory emulation), where the property has
+    # such a crate: `miri` is one configuration or a list; `seeds` is a number (thorough only) or {"quick": n, "thorough": m}
+    if meta.get("miri") and result is not None and not replay_in:
+        cfgs = meta["miri"] if isinstance(meta["miri"], list) else [meta["miri"]]
+        for cfg in cfgs:
+            seeds = cfg.get("seeds", 8)
+            n = seeds.get(tier, 0) if isinstance(seeds, dict) else (seeds if tier == "thorough" else 0)
+            if n > 0:
+                result["groups"].append(miri_group(dict(cfg, seeds=n, args=cfg.get("args_" + tier, cfg.get("args", []))), broken, log))
 
     # 5. verdict
     known, fixed = load_known(pid)
